@@ -79,6 +79,9 @@ type Interpreter struct {
 	Registers Registers
 	Memory    *Memory
 	Gas       Gas
+	// HostCallIndex is the complete (sign-extended 64-bit) immediate of the ecalli that caused the
+	// most recent host-call exit; the exit-reason word only has room for 56 bits of it.
+	HostCallIndex uint64
 }
 
 type Host struct {
